@@ -22,7 +22,7 @@ def run(rep, tier):
     for v in H.VARIANTS:
         targets += [f"{parts}.check_frames_{v}_p{j}" for j in range(H.NK)]
         targets.append(f"{parts}.check_vars_{v}")
-    twin = [f"{MOD}.twin_two_yields_then_error"]
+    twin = [f"{MOD}.twin_two_yields_then_error", f"{MOD}.check_ws_history"]
     t = 300 if tier == "quick" else 2400
     res = xh.run_targets(targets + twin, timeout=t, env_extra={"VERIF_WS_FRAMES": str(nmax)})
     xh.fold(rep, parts, [r for r in res if r.target.startswith(parts)])
@@ -38,6 +38,7 @@ def run(rep, tier):
     rep.sample({"frames": ["connection_ack", "next", "ping", "complete"], "expected": {"sent": ["connection_init", "subscribe", "pong"], "yielded": [{"a": 1}], "error": None}})
     rep.assume("frame handling is explored with variables=None/no init payload; variable serialisation and init payload are explored with a fixed frame sequence (independence of the two is assumed)",
                "websockets library replaced by an in-memory fake connection (recv / async iteration / close)",
+               "history: two subscriptions on one client (extra_headers on the first / second / both) must open connections with exactly their own headers and leave the configured ws_headers untouched",
                "the handshake against a real websockets server is NOT covered (DESIGN section 8)",
                "OpenTelemetry tracer replaced by a no-op stub")
 
